@@ -110,10 +110,11 @@ def chunks(p, bad_kind='syntax'):
 
         'INSERT INTO %s VALUES (%s, %s);\n' % (A, uid(0x101), q(p['s'][0])) +
         'INSERT INTO %s VALUES (%s, %s, 1);\n' % (B, uid(0x201), uid(0x101)) +
-        'INSERT INTO %s VALUES (%s, %s, 2);\n' % (B, uid(0x202), uid(0)) +
+        # (rows in the named-column form, columns in declared and in another order: round 9, C18-18)
+        'INSERT INTO %s (Id, A_Id, %s) VALUES (%s, %s, 2);\n' % (B, p['N'], uid(0x202), uid(0)) +
         'INSERT INTO %sx VALUES (1, 3);\n' % p['Z'],
 
-        'INSERT INTO %s VALUES (%s, %s);\n' % (A, uid(0x102), q(p['s'][1])) +
+        'INSERT INTO %s (%s, Id) VALUES (%s, %s);\n' % (A, p['Name'], q(p['s'][1]), uid(0x102)) +
         'INSERT INTO %s VALUES (%s, %s, 3);\n' % (B, uid(0x203), uid(0x102)) +
         'CREATE UNIQUE INDEX I1 ON %s (Id);\n' % B,
 
